@@ -54,6 +54,7 @@ func main() {
 	sort.Strings(files)
 	var parsed []*ast.File
 	globals := env{}
+	consts := map[string]string{} // package constants with a literal value
 	for _, f := range files {
 		base := filepath.Base(f)
 		if strings.HasSuffix(base, "_test.go") || strings.HasPrefix(base, "verif_") {
@@ -66,6 +67,18 @@ func main() {
 		}
 		parsed = append(parsed, af)
 		for _, d := range af.Decls {
+			if g, ok := d.(*ast.GenDecl); ok && g.Tok == token.CONST {
+				for _, sp := range g.Specs {
+					vs := sp.(*ast.ValueSpec)
+					for i, n := range vs.Names {
+						if i < len(vs.Values) {
+							if bl, ok := vs.Values[i].(*ast.BasicLit); ok {
+								consts[n.Name] = bl.Value
+							}
+						}
+					}
+				}
+			}
 			if g, ok := d.(*ast.GenDecl); ok && g.Tok == token.VAR {
 				for _, sp := range g.Specs {
 					vs := sp.(*ast.ValueSpec)
@@ -84,7 +97,7 @@ func main() {
 	seqOf := map[string]bool{"insertBlock": true, "remove": true, "ensureChainConsistency": true, "updateTxPool": true,
 		"removeFromCommonAncestor": true, "updateLastBlock": true, "saveStates": true}
 	seqs := map[string][]string{}
-	var callers, writers [][2]string
+	var callers, writers, caps [][2]string
 	for _, af := range parsed {
 		for _, d := range af.Decls {
 			fd, ok := d.(*ast.FuncDecl)
@@ -135,6 +148,27 @@ func main() {
 				}
 				return true
 			})
+			if fd.Name.Name == "initBlockChain" {
+				// chain.X, err = lru.New(N)
+				ast.Inspect(fd.Body, func(n ast.Node) bool {
+					as, ok := n.(*ast.AssignStmt)
+					if !ok || len(as.Rhs) != 1 || len(as.Lhs) < 1 {
+						return true
+					}
+					call, ok := as.Rhs[0].(*ast.CallExpr)
+					if !ok || render(fset, call.Fun) != "lru.New" || len(call.Args) != 1 {
+						return true
+					}
+					if l, ok := as.Lhs[0].(*ast.SelectorExpr); ok {
+						v := render(fset, call.Args[0])
+						if cv, ok := consts[v]; ok {
+							v = cv
+						}
+						caps = append(caps, [2]string{l.Sel.Name, v})
+					}
+					return true
+				})
+			}
 			wantSeq := recvT == "blockChain" && seqOf[fd.Name.Name]
 			ast.Inspect(fd.Body, func(n ast.Node) bool {
 				call, ok := n.(*ast.CallExpr)
@@ -213,6 +247,7 @@ func main() {
 		out.WriteString("]\n\n")
 	}
 	pairs("callers", "(callee, calling function) for every call of a block-adding / block-removing blockChain method in package core", callers)
+	pairs("cacheCaps", "(cache field, capacity) from the lru.New calls of initBlockChain (topBlocksCacheSize = 100)", caps)
 	pairs("writers", "(store.op, function) for every direct write of an index store of blockChain", writers)
 	out.WriteString("end Rangers.Generated.C05Facts\n")
 	fmt.Print(out.String())
